@@ -72,6 +72,15 @@ def desugar(loc, relfile, fn_paths, rules):
                     rewrites.append((v["call"][0], v["call"][1], new))
                     records.append({"fn": fp, "rule": "D3 X.iter().filter(|p| C).copied().collect::<Vec<_>>()  =>  { let mut out = Vec::new(); for p in X.iter() { if C { out.push(*p); } } out }",
                                     "original": src[v["call"][0]:v["call"][1]], "rewritten": new})
+                elif v["rule"] == "D12":
+                    recv = src[v["recv"][0]:v["recv"][1]]
+                    pat = src[v["pat"][0]:v["pat"][1]]
+                    body = src[v["body"][0]:v["body"][1]]
+                    new = ("{ let mut pv_collected = Vec::new(); for pv_item in " + recv + " { let " + pat + " = &pv_item; if " + body
+                           + " { pv_collected.push(pv_item); } } pv_collected }")
+                    rewrites.append((v["call"][0], v["call"][1], new))
+                    records.append({"fn": fp, "rule": "D12 X.into_iter().filter(|p| C).collect::<Vec<_>>()  =>  { let mut out = Vec::new(); for item in X { let p = &item; if C { out.push(item); } } out }",
+                                    "original": src[v["call"][0]:v["call"][1]], "rewritten": new})
                 elif v["rule"] == "D11":
                     recv = src[v["recv"][0]:v["recv"][1]]
                     pat = src[v["pat"][0]:v["pat"][1]]
